@@ -3,7 +3,6 @@
 package file
 
 import (
-	"encoding/pem"
 )
 
 // Verification hooks for property C05 (see /verif). Not compiled without the "verif" build tag.
@@ -42,10 +41,7 @@ func VerifRunDERParser(i int, der []byte) (Info, error) {
 	return verifDERParsers[i].parse(der)
 }
 
-// VerifParsePEMBlock runs parsePEMBlock on a block of the given type and content.
-func VerifParsePEMBlock(typ string, der []byte) Info {
-	return parsePEMBlock(&pem.Block{Type: typ, Bytes: der})
-}
+// (VerifParsePEMBlock lives in verif_hooks_c06.go)
 
 // VerifSkipToPEMBlock exposes skipToPEMBlock.
 func VerifSkipToPEMBlock(data []byte) []byte { return skipToPEMBlock(data) }
